@@ -511,7 +511,12 @@ class HostConnection(object):
             conn = self._session.cluster.connection_factory(self.host.endpoint, on_orphaned_stream_released=self.on_orphaned_stream_released)
             if self._keyspace:
                 conn.set_keyspace_blocking(self._keyspace)
-            self._connection = conn
+            with self._lock:
+                if self.is_shutdown:
+                    # the pool was shut down while the replacement was connecting
+                    conn.close()
+                    return
+                self._connection = conn
         except Exception:
             log.warning("Failed reconnecting %s. Retrying." % (self.host.endpoint,))
             self._session.submit(self._replace, connection)
@@ -519,7 +524,7 @@ class HostConnection(object):
             with connection.lock:
                 with self._lock:
                     if connection.orphaned_threshold_reached:
-                        if connection.in_flight == len(connection.orphaned_request_ids):
+                        if self.is_shutdown or connection.in_flight == len(connection.orphaned_request_ids):
                             connection.close()
                         else:
                             self._trash.add(connection)
@@ -534,9 +539,10 @@ class HostConnection(object):
                 self.is_shutdown = True
             self._stream_available_condition.notify_all()
 
-        if self._connection:
-            self._connection.close()
-            self._connection = None
+        with self._lock:
+            conn, self._connection = self._connection, None
+        if conn:
+            conn.close()
 
         trash_conns = None
         with self._lock:
